@@ -16,7 +16,7 @@ PLAN = {
                          dict(with_time=True, with_limits=True), dict(with_time=True, klass="close_stdin_early")]),
     "C09": (300, 15000, [None, None, "wt"]),
     "C10": (300, 15000, [None]),
-    "C11": (300, 15000, ["wt", "wt", None, "long", "wt", None, "wt", "long", "wt", "wt", None, "hour"]),
+    "C11": (300, 15000, ["wt", "wt", None, "long", "wt", None, "wt", "long", "wt", "wt", None, "hour", "weeks"]),
 }
 
 DEPS = {
@@ -67,6 +67,7 @@ def load_scn_file(path, prefix=""):
                 d["kind"] = "comm"
                 d["piped"] = (p[0] == "1", p[1] == "1", p[2] == "1")
                 d["caps"] = [int(x) for x in p[3:6]]
+                d["intr"] = int(p[6]) if len(p) > 6 else 0
             elif k == "popen":
                 p = v.split()
                 d["kind"] = "popen"
